@@ -149,6 +149,10 @@ func genScenario(t *core.Tape, faulty bool) scenario {
 
 // Build returns the scenario builder ("clean": healthy peer; "faulty": drops, stalls, refusals).
 func Build(config string) core.BuildFunc {
+	if config == "slow" {
+		return buildSlow()
+	}
+
 	return func(w *core.World) *core.Scenario {
 		h := &harness{w: w}
 		h.sc = genScenario(w.T, config != "clean")
